@@ -18,5 +18,7 @@ PROPS["C14"] = dict(
                  "AS_PATHs have the RFC 5065 shape: confederation segments only as a leading run"],
     must_count=["roundtrip_paths", "roundtrip_with_as4", "pairs", "pairs_as4_longer", "pairs_with_prepended_part", "aggregators_as4", "as4_path_sent"],
     units=[dict(name="table", harness="t_table", files=["common_", "c14_"], run="TestVerifC14",
-                shards=dict(quick=16, thorough=16), timeout_s=dict(quick=600, thorough=5400))],
+                shards=dict(quick=16, thorough=16), timeout_s=dict(quick=600, thorough=5400)),
+           dict(name="e2e", harness="t_server", files=["sim_", "e2e_"], run="TestVerifE2E_C14",
+                shards=dict(quick=16, thorough=16), timeout_s=dict(quick=900, thorough=5400))],
 )
